@@ -341,6 +341,10 @@ def run(spec, mon):
     n_random = 120 if tier == "quick" else 6000
     for i in range(n_random):
         gen = {"outcomes": OUTCOMES + ["abort"], "weights": {"abort": 0.4}} if i % 4 == 0 else {}
+        if i % 4 == 2:
+            # backgrounds that use the examples column, whose heading need not be a word ("service status", "step-outcome")
+            gen = dict(gen, p_bg_param=0.6, p_background=0.7, p_outline=0.5, value_columns=["x", "service status", "step-outcome"])
+            mon.seen("background_placeholder_column", "possibly_not_a_word")
         if i % 9 == 5:
             # tag names that CONTAIN the operator words of the new dialect (android, order, notify, sandbox), old- and new-style syntax
             alt = ["android", "order", "notify", "sandbox", "b"]
